@@ -11,6 +11,7 @@ ASSUMPTIONS = [
 ]
 
 TU_EXTRA = r'''
+#include <tao/pegtl/contrib/state_control.hpp>
 namespace vf {
 // opaque actions on R<0>: declared, never defined
 template< typename Rule > struct AV  : nothing< Rule > {};
@@ -33,6 +34,16 @@ template< typename Rule > struct ctlnu : normal< Rule > {
    template< typename In > static void success( const In& );
    template< typename In > static void failure( const In& );
 };
+// contrib/state_control.hpp: hooks forwarded to a state object, also for rules the wrapped control does not report
+using HR = internal::seq< R<0> >;      // enable_control< HR > is false: normal< HR > has no hooks of its own
+struct ST {
+   template< typename Rule > static constexpr bool enable = std::is_same_v< Rule, HR >;
+   template< typename Rule, typename In > void start( const In& );
+   template< typename Rule, typename In > void success( const In& );
+   template< typename Rule, typename In > void failure( const In& );
+   template< typename Rule, typename In > void unwind( const In& );
+};
+template< typename Rule > using SCN = state_control< normal >::control< Rule >;
 }
 '''
 ACTIONS = ['nothing', 'AV', 'AB', 'AV0', 'AB0']
@@ -45,13 +56,17 @@ def rname(act, ctl, a, m, tr):
 
 
 def all_roots():
-    return [(act, ctl, a, m, tr) for act in ACTIONS for ctl in CONTROLS for a, m in AM for tr in ('eager', 'lazy')]
+    return [(act, ctl, a, m, tr) for act in ACTIONS for ctl in CONTROLS for a, m in AM for tr in ('eager', 'lazy')] + \
+           [('nothing', 'sc', a, m, tr) for a, m in AM for tr in ('eager', 'lazy')]
 
 
 def tu_for(tracking):
     s = TU_PROLOGUE + TU_EXTRA
     for act, ctl, a, m, tr in all_roots():
         if tr != tracking:
+            continue
+        if ctl == 'sc':
+            s += tu_root(rname(act, ctl, a, m, tr), INPUT_TYPES[(tr, 'lf_crlf')], 'tao::pegtl::match< HR, A%d, M%d, nothing, SCN >( in, st )' % (a, m), ', ST& st')
             continue
         s += tu_root(rname(act, ctl, a, m, tr), INPUT_TYPES[(tr, 'lf_crlf')],
                      'tao::pegtl::match< R<0>, A%d, M%d, %s, %s >( in )' % (a, m, act, ctl))
@@ -148,7 +163,7 @@ def spec(act, ctl, a, m, tr):
     inner_m = 1 if use_guard else m
     hooks = ctl != 'normal'
     con = Contract(comb_requires(), R('g_h == %s && g_n_start == 0 && g_n_success == 0 && g_n_failure == 0 && g_n_unwind == 0 && g_n_apply == 0 && g_rule_threw == 0' % ('H_IDLE' if hooks else 'H_STARTED'), 'attempt-pre'),
-                   Clause('assigns', 'IT_FIELDS(in), g_turn, g_pos, g_done, g_iter, g_last, g_called, g_ok, g_len, g_ncalls, g_ae, g_re, g_lp, vf_exc, vf_exc_counter, g_exc_obj, g_exc_type, '
+                   Clause('assigns', 'IT_FIELDS(in), g_turn, g_pos, g_done, g_iter, g_last, g_called, g_ok, g_len, g_ncalls, g_ae, g_re, g_lp, g_cur, vf_exc, vf_exc_counter, g_exc_obj, g_exc_type, '
                                      'g_h, g_rule_threw, g_n_start, g_n_success, g_n_failure, g_n_unwind, g_n_apply, g_ab_off, g_ae_off, g_hook_off' + (', g_ab_byte, g_ab_line, g_ab_col' if tr == 'eager' else '')))
     for c in comb_common(m, props_rewind=('C02', 'C04')):
         con.add(c)
@@ -171,7 +186,7 @@ def spec(act, ctl, a, m, tr):
     # ---- C08
     if hooks:
         con.add(E('g_n_start == 1', 'HOOK-START-EXACTLY-ONCE', P8))
-        if ctl == 'ctl':
+        if ctl in ('ctl', 'sc'):
             con.add(E('g_n_success + g_n_failure + g_n_unwind == 1', 'HOOK-EXACTLY-ONE-CLOSING', P8))
             con.add(E('(g_h == H_UNWOUND) == (vf_exc.pending != 0)', 'HOOK-UNWIND-IFF-EXCEPTION-PASSES', P8))
         else:
@@ -193,6 +208,10 @@ def jobs(tier):
         con, inner_m, has_action = spec(act, ctl, a, m, tr)
         stubs = [(r'^bool vf::R<\d+>::match<', rule_stub_h(a, inner_m))]
         for k in ('start', 'success', 'failure', 'unwind'):
+            if ctl == 'sc':
+                # unwind is optional: when the control loses its unwind hook the protocol clauses (exactly one closing hook) report it
+                stubs.append((r'vf::ST::%s<' % k, hook_stub(k)) + (('opt',) if k == 'unwind' else ()))
+                continue
             if ctl == 'normal' or (k == 'unwind' and ctl != 'ctl'):
                 continue
             stubs.append((r'vf::ctl(nu)?<vf::R<0> >::%s<' % k, hook_stub(k)))
@@ -204,7 +223,7 @@ def jobs(tier):
                           Contract(R('0', 'action-called-although-actions-are-disabled', ('C04',)), Clause('assigns', '')), 'opt'))
         j = Job(rname(act, ctl, a, m, tr), 'match_e' if tr == 'eager' else 'match_l', rname(act, ctl, a, m, tr), con, ('C04', 'C08', 'C02'),
                 stubs=stubs, prelude=match_prelude(tr),
-                harness=comb_harness('vf_' + INPUT_TYPES[(tr, 'lf_crlf')], tr, 'w_ret = $ENTRY(&in)').replace(
+                harness=comb_harness('vf_' + INPUT_TYPES[(tr, 'lf_crlf')], tr, 'w_ret = $ENTRY(&in)' if ctl != 'sc' else 'struct $REC{vf::ST} sto; w_ret = $ENTRY(&in, &sto)').replace(
                     'vf_exc.pending = 0;', 'vf_exc.pending = 0; vf_exc.obj = 0; g_h = %s; g_n_start = g_n_success = g_n_failure = g_n_unwind = g_n_apply = 0; g_rule_threw = 0;' % ('H_IDLE' if ctl != 'normal' else 'H_STARTED')),
                 expect_fail_canary=('canary_exit',),
                 desc='match<R, %s, %s, %s, %s>() on memory_input<%s>' % ('action' if a else 'nothing', 'optional' if m else 'required', act, ctl, tr))
